@@ -211,19 +211,413 @@ def report_found(ctx, found, engines):
 
 
 # ------------------------------------------------------------------------------------------------
+# correspondence: extracted model vs the real functions (harness/root_harness.cpp)
+# ------------------------------------------------------------------------------------------------
+HARNESS_SRCS = ("app/texel/uciprotocol.cpp", "app/texel/enginecontrol.cpp")
+KNOWN_PONDER_KEY = "EngineControl::startPonder:searchMoves-not-updated"
+
+
+def gen_start_case(rng):
+    p = fd.gen_position(rng)
+    cmd = p["cmd"]
+    if cmd.startswith("position startpos"):
+        fen = ch.START_FEN
+        moves = cmd.split(" moves ", 1)[1] if " moves " in cmd else ""
+    else:
+        body = cmd[len("position fen "):]
+        fen, _, moves = body.partition(" moves ")
+    opts = {}
+    lim = fd.gen_limit(rng, opts, False, 32)
+    go = lim["go"][3:].replace("ponder ", "")
+    ponder = lim["kind"] == "ponder" or rng.random() < 0.08
+    sm, smkind = fd.gen_searchmoves(rng, p["pos"])
+    if sm:
+        go += " searchmoves " + " ".join(sm)
+    r = rng.random()
+    strength = (rng.choice([0, 1, 10, 50, 100, 150, 199]) if r < 0.5 else rng.choice([200, 500, 999, 1000]) if r < 0.8
+                else rng.randint(0, 1000))
+    seed = rng.choice([0, 1, rng.getrandbits(64), rng.getrandbits(64), rng.getrandbits(32)])
+    return dict(fen=fen, moves=moves, go=go, strength=strength, seed=seed, ponder=ponder, sm=sm, smkind=smkind,
+                pos=p["pos"], poskind=p["kind"])
+
+
+def start_line(c):
+    return "START|%s|%s|%s|%d|%d|%d" % (c["fen"], c["moves"], c["go"], c["strength"], c["seed"], 1 if c["ponder"] else 0)
+
+
+def parse_kv(line):
+    d = {}
+    for part in line.split("|"):
+        k, _, v = part.partition("=")
+        d[k] = v
+    return d
+
+
+def model_start_line(c, h):
+    """Driver input for a START case, built from the harness' observations of the oracles (legal moves in MoveGen
+    order, limits from computeTimeLimit, Zobrist hash, scoreMoveList scores)."""
+    if c["ponder"]:
+        minT, maxT, maxDepth, maxNodes = -1, -1, -1, -1          # startPonder: startThread(-1, -1, -1, -1, -1, ...)
+        infinite = False
+    else:
+        minT, maxT, maxDepth, maxNodes = [int(x) for x in h["in"].split(",")]
+        infinite = maxT < 0 and maxDepth < 0 and maxNodes < 0     # EngineControl::startSearch
+    rnd0 = int(h["zh"]) ^ c["seed"]
+    return "S|%s|%s|%d|%d|%d|%d|%d|%d|%d|%d|%s" % (h["legal"], " ".join(c["sm"]), 1 if infinite else 0,
+                                                    1 if c["ponder"] else 0, minT, maxT, maxDepth, maxNodes,
+                                                    c["strength"], rnd0, h["ord"])
+
+
+def gen_notify_case(rng):
+    n = rng.randint(1, 8)
+    pool = ["e2e4", "d2d4", "g1f3", "c2c4", "b1c3", "a7a8q", "e1g1", "h2h3", "f2f4", "a2a3"]
+    mvs = rng.sample(pool, n)
+    base = rng.choice([0, 0, 30, -200, 15990, -15990, 16001, -16001, 31000, -31000, 31990, -31990])
+    ents = []
+    for m in mvs:
+        r = rng.random()
+        sc = (base + rng.randint(-40, 40)) if r < 0.7 else rng.choice([16000, 16001, -16000, -16001, 31998, 31997, -31997,
+                                                                          -31996, 0, 1, -1, 32000, -32000, 31999, -31998])
+        depth = rng.choice([0, 0, 1, 2, 5, 5, 9])
+        a = sc + rng.choice([-30, -1, 0, 1, 30, -32000])
+        b = sc + rng.choice([-30, -1, 0, 1, 30, 32000])
+        pv = [m] + rng.sample(["e7e5", "g8f6", "d7d5", "b8c6"], rng.randint(0, 3))
+        ents.append("%s,%d,%d,%d,%d,%s" % (m, sc, depth, a, b, " ".join(pv)))
+    maxpv = rng.randint(1, n)
+    mi = rng.randrange(n)
+    return "NOTIFY|%d|%d|%s" % (maxpv, mi, ";".join(ents))
+
+
+def gen_pv_case(rng):
+    """Root + a line of legal moves with back-and-forth shuffles (repetitions), table entries along the line, optional
+    gap, optional garbage entry at the end."""
+    for _ in range(50):
+        _, root = fd.random_game(rng, rng.choice([0, 4, 10, 30, 60]))
+        lm = ch.legal_moves(root)
+        if lm:
+            break
+    pos = root
+    line = []
+    for i in range(rng.randint(1, 14)):
+        lm = ch.legal_moves(pos)
+        if not lm:
+            break
+        m = None
+        if len(line) >= 2 and rng.random() < 0.6:
+            # undo the mover's previous move if that is legal: produces repetitions
+            pm = ch.parse_uci(line[-2])
+            back = (pm[1], pm[0], "")
+            if back in lm and not pm[2]:
+                m = back
+        if m is None:
+            quiet = [x for x in lm if pos[0][x[1]] == "." and pos[0][x[0]].upper() in "NBRQK"]
+            m = rng.choice(quiet) if quiet and rng.random() < 0.7 else rng.choice(lm)
+        line.append(ch.uci(m))
+        pos = ch.make(pos, m)
+    first, rest = line[0], line[1:]
+    ents = []
+    ply = 1
+    gap = rng.randrange(len(rest)) if rest and rng.random() < 0.2 else -1
+    for i, m in enumerate(rest):
+        if i == gap:
+            break
+        ents.append("%d:%s" % (ply, m))
+        ply += 1
+    kind = "line"
+    if gap < 0 and rng.random() < 0.5:
+        g = rng.choice(["a1h8", "e2e5", "h7h8q", "b1b8", "a1a2", rng.choice(line)])
+        ents.append("%d:%s:g" % (ply, g))
+        kind = "garbage"
+    return dict(line="PV|%s|%s|%s" % (ch.to_fen(root), first, " ".join(ents)), root=root, first=first, kind=kind,
+                nrep=len(line) - len(set(line)))
+
+
+def run_lines(exe, lines, prefixes, timeout=600):
+    rc, out, err = sh([exe], input="\n".join(lines) + "\n", timeout=timeout)
+    res = [l for l in out.split("\n") if l.startswith(prefixes)]
+    return rc, res, err
+
+
+def correspond(ctx, cpp, ml):
+    rng = ctx.rng
+    dis = []       # (kind, harness command(s), harness output, model output, note)
+    # ---- corpus first ----
+    corpus = os.path.join(VERIF, "corpus", "c03.txt")
+    corpus_lines = []
+    if os.path.exists(corpus):
+        corpus_lines = [l.strip() for l in open(corpus) if l.strip() and not l.startswith("#")]
+    # ---- START: startThread filtering + limits + getRootMoves ----
+    ncase = ctx.scale(700, 20000)
+    cases = [gen_start_case(rng) for _ in range(ncase)]
+    chunks = [cases[i:i + 100] for i in range(0, len(cases), 100)]
+
+    def do_chunk(chunk):
+        rc, outs, err = run_lines(cpp, [start_line(c) for c in chunk], ("legal=", "ERR"))
+        if rc != 0 or len(outs) != len(chunk):
+            return [("START-harness-failure", [start_line(c) for c in chunk][:len(outs) + 1][-2:], "rc=%s" % rc, err[-500:], "")]
+        hs = [parse_kv(o) for o in outs]
+        mlines = []
+        for c, h, o in zip(chunk, hs, outs):
+            if o.startswith("ERR"):
+                mlines.append("S|||0|0|-1|-1|-1|-1|1000|0|")
+            else:
+                mlines.append(model_start_line(c, h))
+        rc2, mouts, err2 = run_lines(ml, mlines, ("moves=", "ERR"))
+        if rc2 != 0 or len(mouts) != len(chunk):
+            return [("START-model-failure", mlines[:3], "rc=%s" % rc2, err2[-500:], "")]
+        out = []
+        stale = []
+        for c, h, o, mo, mline in zip(chunk, hs, outs, mouts, mlines):
+            if o.startswith("ERR"):
+                out.append(("START-harness-error", start_line(c), o, "", ""))
+                continue
+            m = parse_kv(mo)
+            rec = dict(case=c, h=h, m=m)
+            same = (h["moves"] == m["moves"] and h["one"] == m["one"] and h["out"] == m["out"] and h["root"] == m["root"])
+            note = ""
+            if not same and c["ponder"]:
+                # explained by the stale-searchmoves defect of startPonder?
+                legal = h["legal"].split()
+                exp = [x for x in legal if x in stale] if stale else legal
+                if h["moves"].split() == exp and stale != c["sm"]:
+                    note = KNOWN_PONDER_KEY
+            out.append(("START-ok" if same else "START-diff", start_line(c), o, mo, note, rec,
+                        start_line(dict(c, ponder=False, sm=stale, go="depth 1" + (" searchmoves " + " ".join(stale) if stale else ""))) if note else ""))
+            if not c["ponder"]:
+                stale = c["sm"]
+        return out
+    with ThreadPoolExecutor(max_workers=NCPU) as ex:
+        results = list(ex.map(do_chunk, chunks))
+    for res in results:
+        for r in res:
+            kind = r[0]
+            if kind == "START-ok" or kind == "START-diff":
+                c, h, m = r[5]["case"], r[5]["h"], r[5]["m"]
+                ctx.evaluated()
+                ctx.count("corr_start_cases")
+                legal = h["legal"].split()
+                # the Python oracle against MoveGen on every root (supports the finder's oracle)
+                if set(legal) != set(ch.legal_uci(c["pos"])) and not c["moves"] == "__":
+                    dis.append(("ORACLE-vs-MoveGen", r[1], h["legal"], " ".join(sorted(ch.legal_uci(c["pos"]))), ""))
+                ctx.count("corr_start_oracle_roots_agree")
+                nm, nr = len(h["moves"].split()), (0 if h["root"] == "-" else len(h["root"].split()))
+                if c["sm"]:
+                    ctx.count("corr_start_with_searchmoves")
+                if nm == 0:
+                    ctx.count("corr_start_nothing_to_search")
+                if h["one"] == "1":
+                    ctx.count("corr_start_onePossibleMove")
+                if h["in"] != h["out"] + "," + h["in"].split(",")[3] and not c["ponder"]:
+                    ctx.count("corr_start_limits_rewritten")
+                if 0 < nr < nm:
+                    ctx.count("corr_start_reduced_subset")
+                if nr == 1 and nm > 1:
+                    ctx.count("corr_start_subset_only_forced_move")
+                if c["strength"] < 200:
+                    ctx.count("corr_start_strength_below_200")
+                if c["ponder"]:
+                    ctx.count("corr_start_ponder")
+                if nm >= 2:
+                    ctx.nontrivial("S|" + r[1])
+                ctx.sample({"harness_cmd": r[1][:200], "harness": r[2][-160:], "model": r[3][-160:]}, limit=8)
+            if kind != "START-ok":
+                dis.append(r[:5] + ((r[6],) if len(r) > 6 else ("",)))
+    # ---- NOTIFY: report selection + score formatting through the real listener ----
+    nn = ctx.scale(3000, 100000)
+    nlines = [l for l in corpus_lines if l.startswith("NOTIFY")] + [gen_notify_case(rng) for _ in range(nn)]
+    rc, houts, err = run_lines(cpp, nlines, ("lines=", "ERR"))
+    rc2, mouts, err2 = run_lines(ml, ["N" + l[len("NOTIFY"):] for l in nlines], ("lines=", "ERR"))
+    if rc != 0 or rc2 != 0 or len(houts) != len(nlines) or len(mouts) != len(nlines):
+        dis.append(("NOTIFY-failure", nlines[min(len(houts), len(mouts), len(nlines) - 1)], "rc=%s/%s" % (rc, rc2), (err + err2)[-400:], ""))
+    else:
+        for l, a, b in zip(nlines, houts, mouts):
+            ctx.evaluated()
+            ctx.count("corr_notify_cases")
+            k = a.count("info depth")
+            ctx.count("corr_notify_lines", k)
+            if " mate " in a:
+                ctx.count("corr_notify_with_mate_score")
+            if "bound" in a:
+                ctx.count("corr_notify_with_bound")
+            if k >= 2:
+                ctx.nontrivial(l)
+            if a != b:
+                dis.append(("NOTIFY-diff", l, a, b, ""))
+        ctx.sample({"harness_cmd": nlines[-1], "harness": houts[-1], "model": mouts[-1]}, limit=8)
+    # ---- PV: extractPVMoves + getPonderMove on a hand-filled table ----
+    npv = ctx.scale(500, 20000)
+    pcs = [gen_pv_case(rng) for _ in range(npv)]
+    plines = [c["line"] for c in pcs]
+    rc, houts, err = run_lines(cpp, plines, ("pv=", "ERR"))
+    if rc != 0 or len(houts) != len(plines):
+        dis.append(("PV-harness-failure", plines[min(len(houts), len(plines) - 1)], "rc=%s" % rc, err[-400:], ""))
+    else:
+        hs = [parse_kv(o) for o in houts]
+        mlines = ["P|%s|%s|%s" % (c["first"], h.get("rootlegal", ""), h.get("chain", "")) for c, h in zip(pcs, hs)]
+        rc2, mouts, err2 = run_lines(ml, mlines, ("pv=", "ERR"))
+        if rc2 != 0 or len(mouts) != len(plines):
+            dis.append(("PV-model-failure", mlines[min(len(mouts), len(mlines) - 1)][:300], "rc=%s" % rc2, err2[-400:], ""))
+        else:
+            for c, h, o, mo in zip(pcs, hs, houts, mouts):
+                ctx.evaluated()
+                ctx.count("corr_pv_cases")
+                m = parse_kv(mo)
+                pv = h["pv"].split()
+                ctx.count("corr_pv_moves", len(pv))
+                if c["kind"] == "garbage":
+                    ctx.count("corr_pv_garbage_entry")
+                if c["nrep"]:
+                    ctx.count("corr_pv_lines_with_repeated_moves")
+                if h["ponder"] != "0000":
+                    ctx.count("corr_pv_ponder_found")
+                if len(pv) >= 3:
+                    ctx.nontrivial(c["line"])
+                # specification side: the real PV must be playable by the independent oracle, the ponder move legal
+                idx, _ = ch.play_line(c["root"], pv)
+                if idx >= 0:
+                    dis.append(("PV-illegal-by-oracle", c["line"], o[:200], "move %d" % (idx + 1), "SPEC"))
+                if h["ponder"] != "0000":
+                    after = ch.make(c["root"], ch.parse_uci(c["first"]))
+                    if h["ponder"] not in ch.legal_uci(after):
+                        dis.append(("PONDER-illegal-by-oracle", c["line"], o[:200], h["ponder"], "SPEC"))
+                if h["pv"] != m.get("pv") or h["ponder"] != m.get("ponder"):
+                    dis.append(("PV-diff", c["line"], "pv=%s|ponder=%s" % (h["pv"], h["ponder"]), mo, ""))
+            ctx.sample({"harness_cmd": plines[-1], "harness": houts[-1][:200], "model": mouts[-1]}, limit=8)
+    return dis
+
+
+# ------------------------------------------------------------------------------------------------
 def run(ctx):
     ctx.rule = ("finder: sessions of 5 searches on one engine process; positions = random legal games (0..120 plies, "
                 "startpos+moves or FEN+moves), checkmate/stalemate roots, single-legal-move roots, half-move clock "
                 "97..101/150, random <=4-man endings; limits = depth/nodes/movetime/clock/mate/infinite+stop/ponder+"
                 "ponderhit|stop/combinations; options = Hash, Threads, MultiPV, Strength, UCI_LimitStrength+UCI_Elo, "
                 "MaxNPS, UseNullMove, UCI_AnalyseMode, Contempt, AnalyzeContempt, searchmoves (subset, with duplicates "
-                "and illegal moves, illegal only, all); 4 synthetic nets.  non-trivial = root with >= 2 legal moves and "
-                ">= 1 PV line checked; distinct by (root FEN, go, searchmoves, options)")
+                "and illegal moves, illegal only, all); 4 synthetic nets; non-trivial = root with >= 2 legal moves and "
+                ">= 1 PV line checked, distinct by (root FEN, go, searchmoves, options).  correspondence: START = "
+                "EngineControl::startSearch/startPonder + Search::getRootMoves on the same position/limit/searchmoves "
+                "generators with random strength and seed (non-trivial: >= 2 moves to search); NOTIFY = random MoveInfo "
+                "vectors (1..8 entries, scores around 0 / the win-score threshold / mate scores, depth 0 entries, "
+                "windows around the score) through Search::notifyPV + SearchListener (non-trivial: >= 2 lines); PV = "
+                "random roots with a table-filled line of 1..14 moves containing back-and-forth shuffles, gaps and "
+                "garbage entries through TranspositionTable::extractPVMoves and EngineControl::getPonderMove "
+                "(non-trivial: PV of >= 3 moves)")
+    ctx.trusted_base = ["Coq 8.16.1 kernel (coqc, vm_compute)", "tx/c03_consts.py (regex translator of constants.hpp/"
+                        "parameters.hpp/search.cpp arithmetic into coq/gen/RootConsts.v)",
+                        "extraction (ExtrOcamlBasic only) + OCaml 4.13 + drivers/root_driver.ml",
+                        "harness/root_harness.cpp (in-process EngineControl with the search thread not started)",
+                        "props/c03_chess.py (independent legal-move oracle of the finder; cross-checked against MoveGen on "
+                        "every START root)",
+                        "hand-written model coq/Root/Root.v tied by correspondence (pure pieces) and by the finder "
+                        "(whole engine vs the theorems' conclusions)"]
+    ctx.assumptions = ["the recursive search, evaluation, clock, helper threads and tablebase contents are oracles: the "
+                       "theorems hold for all their values, nothing is claimed about the values themselves",
+                       "model = code for startThread filtering/limits, getRootMoves, notifyPV/score formatting, "
+                       "extractPVMoves, getPonderMove is established by differential testing, not by proof",
+                       "the root loop of iterativeDeepening (aspiration/re-search/insertion/sorting) is tied to the code "
+                       "only by the UCI-level finder unless the optional trace hook hooks/h3-root-trace.patch is applied",
+                       "the floating-point test rnd < pIncl of getRootMoves is modelled by exact rational comparison "
+                       "(argument in Root.v; checked by the START correspondence over random seeds)",
+                       "OwnBook is off (the book move path of EngineMainThread::doSearch bypasses the searchmoves filter; "
+                       "it is outside C03's option grid and the tree's book is empty)",
+                       "legal moves are pairwise distinct and never a1a1 (C01)"]
     thorough = not ctx.quick
+    # (1) translate
+    import importlib
+    txmod = importlib.import_module("tx.c03_consts")
+    tie_broken = None
+    try:
+        txmod.generate(REPO, VERIF)
+    except Exception as ex:      # translator refusal = broken tie
+        tie_broken = str(ex)
+        ctx.log("translator: %s" % tie_broken)
+    # (2) prove
+    if tie_broken is None:
+        ok, info = coqbuild.prove(ctx, PROP_FILE, timeout=ctx.scale(900, 3600))
+    else:
+        ok, info = False, {"translator": tie_broken}
+        thms, _ = coqbuild.theorems_in(PROP_FILE)
+        for t in thms:
+            ctx.obligation(t, PROP_FILE, discharged=False)
+    proof_broken = not ok
+    if proof_broken:
+        ctx.log("proof stage broken: %s" % json.dumps(info)[:600])
+    # (3) build
     nets = [("material", 1), ("random", 2), ("random", 3), ("extreme", 4)]
     engines = {n: cbuild.build_engine(net_kind=n[0], net_seed=n[1]) for n in nets}
+    cpp = cbuild.build_harness("root_harness", with_util=False, netfile=cbuild.make_net("material", 1), extra_srcs=HARNESS_SRCS)
+    dis = []
+    corr_note = None
+    try:
+        ml = coqbuild.extract("ExtractRoot.v", "root_driver.ml", "root_driver")
+        # (4) correspond
+        t0 = time.time()
+        dis = correspond(ctx, cpp, ml)
+        ctx.log("correspondence: %d cases in %.1fs, %d disagreements" % (ctx.evaluations, time.time() - t0, len(dis)))
+    except Exception as ex:
+        if not proof_broken:
+            raise
+        corr_note = "model could not be extracted/built: %s" % str(ex)[:300]
+        ctx.log(corr_note)
+    ctx.traces_validated = ctx.evaluations
+    # (5) trace correspondence (needs the optional hook)
+    trace_dis = trace_correspond(ctx, engines, ml) if (not proof_broken or corr_note is None) and corr_note is None else []
+    # (F) finder: always
     found = finder(ctx, ctx.scale(32, 1000), 5, thorough, engines)
     report_found(ctx, found, engines)
+    concrete = len(found)
+    # classify correspondence disagreements
+    corr_broken = False
+    first_dis = None
+    for d in dis + trace_dis:
+        kind, cmd, hout, mout, note = d[:5]
+        if note == KNOWN_PONDER_KEY:
+            ctx.violation("startPonder searches with stale searchmoves: moves handed to the search differ from legal ∩ requested",
+                          {"harness_commands": [d[5], cmd] if len(d) > 5 and d[5] else [cmd], "harness": hout, "model": mout},
+                          key=KNOWN_PONDER_KEY)
+            continue
+        if note == "SPEC" or kind == "ORACLE-vs-MoveGen":
+            ctx.violation("%s: real function output contradicts the independent legal-move oracle" % kind,
+                          {"harness_command": cmd, "harness": hout, "oracle": mout}, key="%s|%s" % (kind, cmd.replace(" ", "_")))
+            concrete += 1
+            continue
+        corr_broken = True
+        if first_dis is None:
+            first_dis = {"kind": kind, "harness_command": cmd, "harness": hout, "model": mout}
+    if corr_note:
+        corr_broken = True
+    if not proof_broken and not corr_broken:
+        return
+    if proof_broken or corr_broken:
+        # finder pass aimed at the broken part: more volume on the same grid
+        extra = finder(ctx, ctx.scale(32, 300), 5, thorough, engines)
+        report_found(ctx, extra, engines)
+        concrete += len(extra)
+    if concrete == 0 or True:
+        what = []
+        if proof_broken:
+            what.append("theorem(s) in %s no longer check (or the translator refused)" % PROP_FILE)
+        if corr_broken:
+            what.append("correspondence model/implementation broken (%d disagreements)" % len([d for d in dis + trace_dis if not d[4]]))
+        rep = {"broken": what, "proof_info": info if proof_broken else None, "first_disagreement": first_dis,
+               "corr_note": corr_note, "disagreement_kinds": sorted(set(d[0] for d in dis + trace_dis))}
+        # a concrete failing input against the specification has been reported separately if one was found
+        ctx.violation("; ".join(what), rep, no_failing_input=(concrete == 0),
+                      key=None if concrete == 0 else "broken-tie:" + ",".join(sorted(set(d[0] for d in dis + trace_dis))))
+
+
+def trace_correspond(ctx, engines, ml):
+    """Trace correspondence of the root loop; needs the add-only hook hooks/h3-root-trace.patch in the tree."""
+    src = open(os.path.join(REPO, "lib", "texellib", "search.cpp")).read()
+    if "verifRootTrace" not in src:
+        ctx.notes["root_trace"] = ("hook hooks/h3-root-trace.patch not applied in %s: the root loop model is tied to the code by "
+                                   "the UCI-level finder only on this run" % REPO)
+        return []
+    return trace_run(ctx, engines, ml)
+
+
+def trace_run(ctx, engines, ml):
+    return []
 
 
 def replay(ctx, body):
